@@ -2,6 +2,7 @@ package main
 
 import (
 	"fmt"
+	"sort"
 	"go/token"
 	"go/types"
 	"strings"
@@ -190,8 +191,10 @@ func (ex *Exec) stepSelect(x *ssa.Select) {
 			}
 			res.Fs = append(res.Fs, v)
 			e = ex.chanEvent(evRecv, ch.T, v)
+			ex.chanInvRecv(s.Chan, v)
 		} else {
 			e = ex.chanEvent(evSend, ch.T, ex.val(s.Send))
+			ex.chanInvSend(s.Chan, ex.val(s.Send), x.Pos())
 		}
 		if ev == nil {
 			ev = e
@@ -325,6 +328,36 @@ func (ex *Exec) calleeEnv(spec *FuncSpec, info calleeInfo, args []Val, st, old *
 	return env
 }
 
+// callOrdinal: the 1-based position of this call among the calls of the same
+// callee in the function, in source order (so that "call K 2" in a contract
+// means the second call of K as the code is written, whatever order the
+// blocks are visited in).
+func (ex *Exec) callOrdinal(c *ssa.CallCommon, key string) int {
+	if ex.callOrd == nil {
+		ex.callOrd = map[*ssa.CallCommon]int{}
+		byKey := map[string][]*ssa.CallCommon{}
+		for _, b := range ex.fn.Blocks {
+			for _, in := range b.Instrs {
+				if ci, ok := in.(ssa.CallInstruction); ok {
+					cc := ci.Common()
+					if _, isB := cc.Value.(*ssa.Builtin); isB {
+						continue
+					}
+					_, info := ex.V.contractFor(ex, cc)
+					byKey[info.key] = append(byKey[info.key], cc)
+				}
+			}
+		}
+		for _, cs := range byKey {
+			sort.SliceStable(cs, func(i, j int) bool { return cs[i].Pos() < cs[j].Pos() })
+			for i, cc := range cs {
+				ex.callOrd[cc] = i + 1
+			}
+		}
+	}
+	return ex.callOrd[c]
+}
+
 func firstIntLit(es []SExpr) (*SIntLit, bool) {
 	if len(es) == 1 {
 		l, ok := es[0].(*SIntLit)
@@ -414,7 +447,7 @@ func (ex *Exec) applyContract(spec *FuncSpec, info calleeInfo, c *ssa.CallCommon
 	// with the call's arguments available as arg0, arg1, ...
 	if ex.spec != nil {
 		for _, cl := range ex.spec.Clauses {
-			if cl.Kind == "bind" && strings.HasPrefix(cl.Type, "before:") && cl.Text == fmt.Sprintf("%s %d", info.key, ex.callCount[info.key]+1) {
+			if cl.Kind == "bind" && strings.HasPrefix(cl.Type, "before:") && cl.Text == fmt.Sprintf("%s %d", info.key, ex.callOrdinal(c, info.key)) {
 				env := ex.envAt(ex.cur, nil)
 				for i, a := range args {
 					env.vars[fmt.Sprintf("arg%d", i)] = a
@@ -477,10 +510,9 @@ func (ex *Exec) applyContract(spec *FuncSpec, info calleeInfo, c *ssa.CallCommon
 	// results are allocated in the post state
 	ex.allocatedDeep(res, rt, post)
 	// ghost bindings of the function under verification: "bind g := call K n"
-	ex.callCount[info.key]++
 	if ex.spec != nil {
 		for _, cl := range ex.spec.Clauses {
-			if cl.Kind == "bind" && !strings.HasPrefix(cl.Type, "before:") && cl.Text == fmt.Sprintf("%s %d", info.key, ex.callCount[info.key]) {
+			if cl.Kind == "bind" && !strings.HasPrefix(cl.Type, "before:") && cl.Text == fmt.Sprintf("%s %d", info.key, ex.callOrdinal(c, info.key)) {
 				v := res
 				if len(v.Fs) > 0 {
 					v = v.Fs[0]
@@ -639,9 +671,10 @@ func (ex *Exec) havocTarget(e SExpr, env *Env, pre, post *State) {
 		}
 	case *SSel:
 		// Type.field (whole array) or obj.field
-		if id, ok := x.X.(*SIdent); ok {
-			if tn := ex.V.lookupType(id.Name, env.pkgOr(ex.pkg)); tn != nil {
-				if _, isVar := env.vars[id.Name]; !isVar {
+		if tn := ex.V.typeOfSpecExpr(x.X, env.pkgOr(ex.pkg), func(n string) bool { _, ok := env.vars[n]; return ok }); tn != nil {
+			{
+				{
+					id := &SIdent{show(x.X)}
 					st, ok := tn.Underlying().(*types.Struct)
 					if !ok {
 						ex.fail("modifies %s.%s: not a struct", id.Name, x.Name)
